@@ -1,6 +1,6 @@
 """Sequential-history family: C03 (reads = MVCC snapshot), C12 (engine independence),
 C08 (compaction floor), C13 (partition independence)."""
-import json, os, random, time
+import json, os, subprocess, random, time
 from kbcheck import *
 import fam_write
 
@@ -154,8 +154,9 @@ def check_seq(prop, tier, seed):
         three = seq_gen(work, dict(SEQ_CONSTS, Keys={1, 2, 3}, MaxOps=5, **G), seed + 2, n // 4, name="gen3")
         engines = "memkv,badger,tikv,metrics"
         flags = ["-seed", str(seed), "-frac", "0.02" if quick else "0.1", "-finalfrac", "0.25" if quick else "1.0"]
-        if prop == "C03":
-            # "... or fails": point and limited reads repeated under one transient error of the engine's iterator
+        if prop in ("C03", "C08"):
+            # "... or fails": point and limited reads repeated under one transient error of the engine's iterator; range reads below
+            # the floor and an older compaction request while the compaction record cannot be looked up
             flags = flags + ["-readfaults"]
         alltraces, allagree = [], []
         # C12: long histories of one key (create, delete, re-create, update ...) with a compaction in the middle and
@@ -224,6 +225,29 @@ def check_seq(prop, tier, seed):
         # ---- 3. verdicts from trace validation
         if prop == "C12":
             ntr, v = validate_all(work, allagree, T_MON[prop], module="TraceAgree.tla")
+            if not v:
+                # an engine whose own partition answer is malformed is an engine that behaves differently (the recording wrapper does
+                # not pass such an answer on, so the transcripts cannot show it)
+                _, v = validate_all(work, alltraces, ["M_PartitionsTileInterval"], chunks=8)
+            if not v:
+                # ... and so is one on which an Event that was deleted and created again does not expire as a whole: the scripted
+                # expiry scenario (real TTL of 2 s) on every engine, each judged against the same expectations
+                d = work.sub("ttlrun")
+                procs = []
+                for eng in ("memkv", "badger", "metrics", "tikv"):
+                    tr = os.path.join(d, "ttl_%s.ndjson" % eng); rp = os.path.join(d, "ttl_%s.json" % eng)
+                    procs.append((subprocess.Popen(["timeout", "60", binp, "ttlrun", "-engine", eng, "-out", tr, "-report", rp], stdout=subprocess.PIPE,
+                                                   stderr=subprocess.STDOUT, env=GOENV, text=True), eng, tr, rp))
+                ttl = []
+                for p_, eng, tr, rp in procs:
+                    out, _ = p_.communicate()
+                    if p_.returncode == 0 and os.path.exists(rp):
+                        ttl.append(tr)
+                    else:
+                        log("ttlrun on %s inconclusive (rc=%s)" % (eng, p_.returncode))
+                cov["replay"].append(dict(what="scripted expiry scenario (Event deleted and created again, look-alike keys), TTL 2 s", engines=len(ttl)))
+                n2, v = validate_all(work, ttl, ["M_ExpiryExpectation", "M_ExpireWholly"], chunks=4)
+                ntr += n2
         else:
             ntr, v = validate_all(work, alltraces, T_MON[prop], chunks=4 if quick else 12)
         cov["traces_validated_against_impl"] = ntr
